@@ -19,6 +19,14 @@ class Panic(Exception):
         self.msg = msg
         self.span = span
         self.kind = kind
+        self.trace = []
+
+    def site(self):
+        """innermost frame inside the crate: (body name, (file, line))"""
+        for name, sp in self.trace:
+            if sp and not str(sp[0]).startswith('/'):
+                return name, sp
+        return (self.trace[0] if self.trace else (None, self.span))
 
 
 class PathDead(Exception):
@@ -154,12 +162,13 @@ class FnItem:
 
 
 class Closure:
-    __slots__ = ('ident', 'f', 'names')
+    __slots__ = ('ident', 'f', 'names', 'body')
 
-    def __init__(self, ident, fields, names=()):
+    def __init__(self, ident, fields, names=(), body=None):
         self.ident = ident
         self.f = AutoList(fields)
         self.names = list(names)
+        self.body = body
 
     def __repr__(self):
         return 'closure@%s' % self.ident[9:40]
